@@ -238,7 +238,8 @@ theorem chainsC_addRr_none {s s' : State} (hw : WInv s) (hl : PtrLogOK s) (owner
     rchainC_append (rchainC_ext e (Nat.le_refl _) hr) hch, hrr, hm⟩
 
 /-- the final chains with content -/
-structure FinLayC (P : CMode → Prop) (s sF : State) (len : Nat) (mac : Option (List UInt8)) (b : Body) : Prop where
+structure FinLayC (P : CMode → Prop) (s sF : State) (len : Nat) (mac : Option (List UInt8)) (b : Body)
+    (mb : MBody) : Prop where
   winv : WInv sF
   len : len = sF.cursor
   /-- the first four header octets are untouched -/
@@ -247,11 +248,14 @@ structure FinLayC (P : CMode → Prop) (s sF : State) (len : Nat) (mac : Option 
   chains : ∃ qs rs, QChainC sF qs 12 s.rrStart ∧ RChainC sF rs s.rrStart sF.cursor ∧
     qs.map (·.q) = b.qs ∧
     rs.map (·.r) = b.an ++ b.ns ++ (b.ar ++ optRecs' s.edns ++ tsigRecs s.tsig mac) ∧
-    (∀ it ∈ qs, P it.m) ∧ ∀ it ∈ rs, P it.m
+    (∀ it ∈ qs, P it.m) ∧ (∀ it ∈ rs, P it.m) ∧ qs.map (·.m) = mb.qs ∧
+    rs.map (·.m) = mb.an ++ mb.ns ++ (mb.ar ++ (optRecs' s.edns).map (fun _ => s.mode) ++
+      (tsigRecs s.tsig mac).map (fun _ => s.mode))
 
-theorem finishWithMac_finLayC (macFn : Tsig → List UInt8 → List UInt8) (s : State) (b : Body) (hI : I s)
-    (hL : CLay P s b) (len : Nat) (mac : Option (List UInt8)) (sF : State)
-    (hw : finishWithMac macFn s = (.ok (len, mac), sF)) (hle : sF.cursor ≤ 65535) : FinLayC P s sF len mac b := by
+theorem finishWithMac_finLayC (macFn : Tsig → List UInt8 → List UInt8) (s : State) (b : Body) (mb : MBody)
+    (hI : I s) (hL : CLay P s b mb) (len : Nat) (mac : Option (List UInt8)) (sF : State)
+    (hw : finishWithMac macFn s = (.ok (len, mac), sF)) (hle : sF.cursor ≤ 65535) :
+    FinLayC P s sF len mac b mb := by
   unfold finishWithMac at hw
   simp only [M.bind_apply, M.gets_apply] at hw
   obtain ⟨o, hceq, hIA, hosz⟩ := finishCounts_spec s.qdcount s.ancount s.nscount s.arcount s hI
@@ -271,7 +275,7 @@ theorem finishWithMac_finLayC (macFn : Tsig → List UInt8 → List UInt8) (s : 
   have hres := inv_reserved' hI.inv
   have hav := hI.inv.av_lim; have hls := hI.inv.lim_size
   have h11 : Gen.OPT_RECORD_SIZE = 11 := rfl
-  obtain ⟨qs, hq, hqm, hqP⟩ := hL.q
+  obtain ⟨qs, hq, hqm, hqP, hqM⟩ := hL.q
   have hq12 : 12 ≤ s.rrStart := qchainC_le hq
   cases ho : finishOpt s.edns sA with
   | mk r2 s1 =>
@@ -297,7 +301,7 @@ theorem finishWithMac_finLayC (macFn : Tsig → List UInt8 → List UInt8) (s : 
           rw [hadd] at this; exact this.cur
       have hle1 : s1.cursor ≤ 65535 := by omega
       have hle0 : s.cursor ≤ 65535 := by omega
-      obtain ⟨rs, hr, hrm, hrP⟩ := hL.r hle0
+      obtain ⟨rs, hr, hrm, hrP, hrM⟩ := hL.r hle0
       have hpreA : ∀ i, 12 ≤ i → i < s.cursor → sA.octets[i]? = s.octets[i]? := fun i hi _ => kpre i (Or.inr hi)
       have hqA : QChainC sA qs 12 s.rrStart :=
         qchainC_move (lo := 12) (fun it hlo hk hf => qfacts_frame (lo := 12) hf hlo (by omega) hI.winv.g12 hpreA
@@ -310,11 +314,12 @@ theorem finishWithMac_finLayC (macFn : Tsig → List UInt8 → List UInt8) (s : 
       have stage1 : ∃ o1 : List RItC, WInv s1 ∧ PtrLogOK s1 ∧ QChainC s1 qs 12 s.rrStart ∧
           RChainC s1 (rs ++ o1) s.rrStart s1.cursor ∧ o1.map (·.r) = optRecs' s.edns ∧
           (∀ i, i < 12 → s1.octets[i]? = sA.octets[i]?) ∧ s1.tsig = s.tsig ∧
-          s1.available + tsigReserved s.tsig ≤ s1.octets.size ∧ (∀ it ∈ o1, it.m = s.mode) ∧ s1.mode = s.mode := by
+          s1.available + tsigReserved s.tsig ≤ s1.octets.size ∧ (∀ it ∈ o1, it.m = s.mode) ∧ s1.mode = s.mode ∧
+          o1.map (·.m) = (optRecs' s.edns).map (fun _ => s.mode) := by
         rcases hO with ⟨he, e⟩ | ⟨e, he, hadd⟩
         · subst e
           refine ⟨[], hIA.winv, hIA.log, hqA, by simpa using hrA, by rw [he]; rfl, fun _ _ => rfl, tA, ?_,
-            (fun _ hx => by cases hx), mA⟩
+            (fun _ hx => by cases hx), mA, by rw [he]; rfl⟩
           rw [avA, szA]; rw [he] at hres; simp at hres; omega
         · rw [he] at hres
           simp only [Option.isSome_some, if_true, h11] at hres
@@ -332,12 +337,12 @@ theorem finishWithMac_finLayC (macFn : Tsig → List UInt8 → List UInt8) (s : 
           refine ⟨[it], w1, l1, hq1, hr1, ?_, fun i hi => e1.pre i (by show i < sA.cursor; rw [cA]; omega),
             by rw [e1.tsig]; exact tA, ?_, fun x hx => by
               simp only [List.mem_singleton] at hx; subst hx; rw [hitm]; exact mA,
-            by rw [e1.mode]; exact mA⟩
+            by rw [e1.mode]; exact mA, by rw [he]; simp only [List.map_cons, List.map_nil, optRecs', hitm]; show [sA.mode] = _; rw [mA]⟩
           · rw [he]; simp only [List.map_cons, List.map_nil, hit1]; rfl
           · rw [e1.available, e1.size]
             show sA.available + Gen.OPT_RECORD_SIZE + _ ≤ sA.octets.size
             rw [avA, szA, h11]; omega
-      obtain ⟨o1, w1, l1, hq1, hr1, hom, hpre1, ht1, hroom1, hom1, hm1⟩ := stage1
+      obtain ⟨o1, w1, l1, hq1, hr1, hom, hpre1, ht1, hroom1, hom1, hm1, homM⟩ := stage1
       have hP1 : ∀ it ∈ rs ++ o1, P it.m := by
         intro it hx
         rcases List.mem_append.mp hx with hx | hx
@@ -349,7 +354,8 @@ theorem finishWithMac_finLayC (macFn : Tsig → List UInt8 → List UInt8) (s : 
       have hl8 : (u16be s.qdcount ++ u16be s.ancount ++ u16be s.nscount ++ u16be s.arcount).length = 8 := rfl
       rcases hT with ⟨hts, e, hlen⟩ | ⟨ts, rdata, hts, hlen, hadd, hrd⟩
       · subst e
-        refine ⟨w1, hlen, hhdr1, ?_, qs, rs ++ o1, hq1, hr1, hqm, ?_, hqP, hP1⟩
+        refine ⟨w1, hlen, hhdr1, ?_, qs, rs ++ o1, hq1, hr1, hqm, ?_, hqP, hP1, hqM, by
+          rw [List.map_append, hrM, homM, hts]; simp [tsigRecs, List.append_assoc]⟩
         · intro i hi
           rw [hl8] at hi
           rw [hpre1 _ (by omega)]
@@ -376,7 +382,12 @@ theorem finishWithMac_finLayC (macFn : Tsig → List UInt8 → List UInt8) (s : 
           hqP, fun x hx => by
             rcases List.mem_append.mp hx with hx | hx
             · exact hP1 x hx
-            · simp only [List.mem_singleton] at hx; subst hx; rw [hitm2]; show P s1.mode; rw [hm1]; exact hL.pm⟩
+            · simp only [List.mem_singleton] at hx; subst hx; rw [hitm2]; show P s1.mode; rw [hm1]; exact hL.pm,
+          hqM, by
+            rw [List.map_append, List.map_append, hrM, homM, hts]
+            simp only [List.map_cons, List.map_nil, tsigRecs, hitm2, List.append_assoc]
+            show _ ++ (_ ++ (_ ++ (_ ++ [s1.mode]))) = _
+            rw [hm1]⟩
         · intro i hi
           rw [hl8] at hi
           rw [e2.pre _ (by show 4 + i < s1.cursor; omega), hpre1 _ (by omega)]
@@ -397,8 +408,8 @@ theorem map_take_eq {α β : Type} (f : α → β) (l : List α) (a b : List β)
     question and record is the one given: name equal up to ASCII case (octet for octet when it was
     written in `CasePreserving` or `Disabled` mode), TYPE, CLASS, TTL as given (as 16/16/32-bit
     values); the additional section ends with the OPT and TSIG records `finish` appends. -/
-theorem finish_decodes_content (macFn : Tsig → List UInt8 → List UInt8) (s : State) (b : Body) (hI : I s)
-    (hL : CLay P s b) (m : Bytes) (mac : Option (List UInt8)) (hf : finish s macFn = .ok (m, mac))
+theorem finish_decodes_content (macFn : Tsig → List UInt8 → List UInt8) (s : State) (b : Body) (mb : MBody)
+    (hI : I s) (hL : CLay P s b mb) (m : Bytes) (mac : Option (List UInt8)) (hf : finish s macFn = .ok (m, mac))
     (hsz : m.size ≤ 65535) :
     ∃ (d : DMsg) (qs : List QItC) (ian ins iar : List RItC), specDecodeMsg m = some d ∧
       qs.map (·.q) = b.qs ∧ ian.map (·.r) = b.an ∧ ins.map (·.r) = b.ns ∧
@@ -422,7 +433,7 @@ theorem finish_decodes_content (macFn : Tsig → List UInt8 → List UInt8) (s :
       have hcF : sF.cursor ≤ sF.octets.size := by omega
       have hmsz : m.size = sF.cursor := by rw [← hm, hlc]; exact extract_size _ _ hcF
       have hle : sF.cursor ≤ 65535 := by omega
-      obtain ⟨wF, _, hhdr, hcnt, qs, rs, hq, hr, hqm, hrm, hqP, hrP⟩ := finishWithMac_finLayC macFn s b hI hL len mc sF hw hle
+      obtain ⟨wF, _, hhdr, hcnt, qs, rs, hq, hr, hqm, hrm, hqP, hrP, _, _⟩ := finishWithMac_finLayC macFn s b mb hI hL len mc sF hw hle
       rw [hlc] at hm
       subst hm
       have hsz' := extract_size sF.octets sF.cursor hcF
